@@ -522,6 +522,19 @@ def value_fp(agent, include_index: bool = True) -> Dict[str, Any]:
             fp[f"hprange:{n_}"] = repr((p.min, p.max, p.shrink_factor, p.grow_factor, p.dtype.__name__))
     if hasattr(agent, "sigma_inv"):
         fp["bandit:sigma_inv"] = tensor_hash(agent.sigma_inv)
+    rms = getattr(agent, "obs_rms", None) if type(agent).__name__ == "RSNorm" else None
+    if rms is not None:
+        def walk(x, path):
+            if isinstance(x, dict):
+                for k in sorted(x):
+                    walk(x[k], f"{path}.{k}")
+            elif isinstance(x, (tuple, list)):
+                for i, v in enumerate(x):
+                    walk(v, f"{path}.{i}")
+            else:
+                for f_ in ("mean", "var", "count"):
+                    fp[f"wrapper:obs_rms{path}:{f_}"] = tensor_hash(getattr(x, f_))
+        walk(rms, "")
     return fp
 
 
